@@ -14,14 +14,13 @@ import (
 	"crypto/rand"
 	"crypto/rsa"
 	"crypto/x509"
-	"encoding/binary"
 	"fmt"
 	"math"
 	mrand "math/rand"
 	"path/filepath"
 	"testing"
 
-	"github.com/Tnze/go-mc/nbt"
+	"go.minekube.com/common/minecraft/component"
 
 	"go.minekube.com/gate/pkg/edition/java/profile"
 	"go.minekube.com/gate/pkg/edition/java/proto/packet"
@@ -128,17 +127,27 @@ func playerKey(rev keyrevision.Revision) (crypto.IdentifiedKey, M) {
 	return k, M{"exp": limbs(exp), "pub": bs(pubDER), "sig": bs(sig)}
 }
 
-// JSON / NBT text components built by the harness itself
-func jsonComponent(n int) (string, *chat.ComponentHolder) {
-	j := `{"text":"` + name(n) + `"}`
+// Component texts by class (Packets.tla TextClasses): ordinary texts and texts that look like
+// SNBT numbers / booleans / malformed numbers.
+var texts = []string{"You have been kicked", "kicked", "404", "-1", "1b", "0.5", "true", "1.21.4", "1e3", "",
+	"12345f", "Notch_99", "false", "1L", ".5", "+7", "0x1F", "1d", "1s", "null", "3.", "-0", "1e", "Server closed."}
+
+// a JSON text component written by the harness itself (JSON era and login state)
+func jsonComponent(t string) (string, *chat.ComponentHolder) {
+	j := `{"text":"` + t + `"}`
 	return j, &chat.ComponentHolder{JSON: []byte(j)}
 }
 
-func nbtStringComponent(n int) ([]byte, *chat.ComponentHolder) {
-	s := name(n)
-	data := binary.BigEndian.AppendUint16(nil, uint16(len(s)))
-	data = append(data, s...)
-	return append([]byte{8}, data...), &chat.ComponentHolder{BinaryTag: nbt.RawMessage{Type: 8, Data: data}}
+// the component the proxy means, as it builds it itself (component.Text with children), and its abstract value
+func textComponent(class, children int, protocol int) (M, *chat.ComponentHolder) {
+	c := &component.Text{Content: texts[class]}
+	extra := []M{}
+	for i := 0; i < children; i++ {
+		t := texts[rng.Intn(len(texts))]
+		c.Extra = append(c.Extra, &component.Text{Content: t})
+		extra = append(extra, M{"text": str(t), "extra": []M{}})
+	}
+	return M{"text": str(c.Content), "extra": extra}, chat.FromComponentProtocol(c, proto.Protocol(protocol))
 }
 
 func idClass(c int, wide bool) int64 {
@@ -251,15 +260,15 @@ func build(s shape) (proto.Packet, *proto.PacketContext, M) {
 		}
 		d := &packet.Disconnect{}
 		ctx.PacketID = pid(reg, s.V, d)
-		var body []byte
+		f := M{"st": st}
 		if st != "login" && s.V >= 765 {
-			body, d.Reason = nbtStringComponent(p[1])
+			f["comp"], d.Reason = textComponent(p[1], p[2], s.V)
 		} else {
 			var j string
-			j, d.Reason = jsonComponent(p[1])
-			body = []byte(j)
+			j, d.Reason = jsonComponent(texts[p[1]])
+			f["body"] = str(j)
 		}
-		return d, ctx, M{"st": st, "body": bs(body)}
+		return d, ctx, f
 	case "keepalive":
 		id := idClass(p[0], s.V >= 340)
 		return &packet.KeepAlive{RandomID: id}, ctx, M{"id": limbs(id)}
@@ -336,15 +345,13 @@ func buildUpsert(s shape, ctx *proto.PacketContext) (proto.Packet, *proto.Packet
 			f["sess"] = kj
 		}
 		if variant&2 != 0 {
-			var body []byte
 			if s.V >= 765 {
-				body, e.DisplayName = nbtStringComponent(1 + rng.Intn(20))
+				f["dnc"], e.DisplayName = textComponent(s.P[4], s.P[5], s.V)
 			} else {
 				var j string
-				j, e.DisplayName = jsonComponent(1 + rng.Intn(20))
-				body = []byte(j)
+				j, e.DisplayName = jsonComponent(texts[s.P[4]])
+				f["dn"] = str(j)
 			}
-			f["dn"] = bs(body)
 		}
 		u.Entries = append(u.Entries, e)
 		entries = append(entries, f)
